@@ -108,11 +108,42 @@ def plan(tier, seed):
     for sec in ("sync", "events", "track"):
         for gi in range(len(GARBAGE[sec]) + 1):
             shards.append(("ins", sec, gi, mult))
+    shards.append(("song", mult))
     shards.append(("pairs", mult))
     shards.append(("disjoint",))
     shards.append(("long",))
     shards.append(("conservation",))
     return dict(shards=shards, bounds=dict(base_lines=5, insertion_points=6, multiplicity=mult, garbage={k: v for k, v in GARBAGE.items()}), budget_s=600)
+
+
+# [Song]: lines no field recogniser accepts are skipped (silently on the pinned tree: whether they are REPORTED is
+# left open, DESIGN.md 3.11) - but wherever they stand they never change what is parsed. Among them look-alikes
+# that carry a field's name but not a value of its kind.
+SONG_BASE = ["Resolution = 4", "Offset = 7", 'Name = "n"', "Difficulty = 3", "Player2 = bass", 'Year = ", 2001"']
+SONG_GARBAGE = ["", "garbage", "0 = B 120000", "0 = N 0 0", "Offset = 1.5", "Offset = x", "Offset =", "Offset = 7 8", "Offset = -3", "Resolution = 4.0", "Resolution = x", "Difficulty = hard", "Difficulty = 0x3", "offset = 9", "XOffset = 9", "Offset: 9", "Offset=9", "Offset  = 9", "Name = ", "{", "}", "[Song]", "Unknown = 5", 'Unknown = "x"']
+
+
+def _song(ctx, mult):
+    def text_of(song):
+        return mk(song=song, sync=BASE["sync"], events=BASE["events"], tracks={"ExpertSingle": BASE["track"]})
+
+    base_text = text_of(SONG_BASE)
+    o0, _ = run(base_text)
+    for g in SONG_GARBAGE:
+        for pos in range(len(SONG_BASE) + 1):
+            for k in range(1, mult + 1):
+                ctx.node()
+                song = SONG_BASE[:pos] + [g] * k + SONG_BASE[pos:]
+                text = text_of(song)
+                o1, _ = run(text)
+                ctx.case(text, sample=lambda: dict(song_body=song))
+                ctx.evaluations += 1
+                ctx.hist["song_insertions"] += 1
+                if o1 != o0:
+                    from ..refmodel import diff
+
+                    why = diff(o1[1], o0[1]) if o1[0] == o0[0] == "ok" else "outcome %r vs base %r" % (o1[:2] if o1[0] == "err" else "ok", o0[:2] if o0[0] == "err" else "ok")
+                    ctx.violation("song-changed", dict(base=base_text, text=text, k=0, song=True), "[Song]: %d line(s) %r that no field recogniser accepts, inserted at position %d, change what is parsed: %s" % (k, g, pos, why), script=SCRIPT.format(observe_src=impl.OBSERVE_SRC, base=base_text, text=text, k=0).replace("and w1 - w0 == k", ""))
 
 
 def check(ctx, sec, lines, k, base_text, o0, w0, what):
@@ -223,6 +254,8 @@ def run_shard(shard, ctx):
         return _disjoint(ctx)
     if shard[0] == "conservation":
         return _conservation(ctx)
+    if shard[0] == "song":
+        return _song(ctx, shard[1])
     base_text = text_with("sync", BASE["sync"])
     o0, w0 = run(base_text)
     if shard[0] == "ins":
@@ -271,6 +304,8 @@ def replay(case):
         return e1.replay_model_case(case, "claimed-once")
     o0, w0 = run(case["base"])
     o1, w1 = run(case["text"])
+    if case.get("song"):
+        return [] if o0 == o1 else [dict(key="song-changed", msg="still fails", case=case)]
     if o0 == o1 and w1 - w0 == case["k"]:
         return []
     return [dict(key="events-changed" if o0 != o1 else "reported-once", msg="still fails", case=case)]
